@@ -341,19 +341,25 @@ func runC17(w *worker) func(c c17Case) *Failure {
 			}
 		}
 		// ... and under concurrent use: after the legacy calls of this case (and of every earlier case of
-		// this process) four goroutines repeat the codec calls at the same time; each must see the
+		// this process) eight goroutines repeat the codec calls at the same time; each must see the
 		// sequential outcome
-		if hs := sha256.Sum256(append([]byte(c.S.Sig()), c.Msg...)); hs[1]%2 == 0 {
+		madeCalls := false
+		for _, l := range c.Before {
+			if len(l) > 0 {
+				madeCalls = true
+			}
+		}
+		if hs := sha256.Sum256(append([]byte(c.S.Sig()), c.Msg...)); hs[1]%3 == 0 || (madeCalls && !control && hs[1]%3 == 1) {
 			want := c17Codec(c)
 			if want.Fail == "" {
 				var wg sync.WaitGroup
 				var mu sync.Mutex
 				var bad *c17Outcome
-				for g := 0; g < 4; g++ {
+				for g := 0; g < 8; g++ {
 					wg.Add(1)
 					go func() {
 						defer wg.Done()
-						for k := 0; k < 8; k++ {
+						for k := 0; k < 6; k++ {
 							if got := c17Codec(c); got != want {
 								mu.Lock()
 								bad = &got
